@@ -18,7 +18,7 @@ RULE = ("seeded call histories of 2-7 pipeflow calls on one net object (gas, wat
         "are later undone; NaN outer diameters; user options set and reset); non-trivial = >= 2 calls compared against a fresh "
         "copy with >= 1 returned call; distinct = case parameter hash")
 ASSUMPTIONS = ["a fresh copy is a new build of the same spec through the public create_* API with the same edits applied"]
-CONFIG = {"quick": {"shards": 8, "timeout_s": 600, "cases": 260},
+CONFIG = {"quick": {"shards": 8, "timeout_s": 900, "cases": 200},
           "thorough": {"shards": 16, "timeout_s": 3000, "cases": 6000}}
 REQUIRED_COUNTERS = ["purity_checks_on_return", "purity_checks_on_exception", "repeat_bit_identical_checks",
                      "history_vs_fresh_checks", "history_vs_fresh_after_failure", "heat_from_stored_hydraulics_checks",
@@ -86,7 +86,7 @@ def make(case):
             edit = ("restore", None)
             edited = False
         elif e < 0.55:
-            edit = ("user_options", {"tol_p": 1e-7, "max_iter_hyd": 60})
+            edit = ("user_options", [{"tol_p": 1e-7, "max_iter_hyd": 60}, {"iter": 70, "tol_m": 1e-6}, {"iter": 80, "max_iter_therm": 90}][int(rng.integers(3))])
         elif e < 0.6:
             edit = ("clear_user_options", None)
         calls.append({"opts": opts, "edit": edit})
